@@ -347,12 +347,19 @@ Definition good_chain (u : N) (now : Z) : tlsinfo :=
      c_denied := false; c_not_before := now; c_ip_error := false; c_ip_valid := false;
      c_automation := false; c_revoked := false |}.
 
+Definition role_chain (u : N) (now : Z) : tlsinfo :=
+  {| c_chain2 := true; c_issuer := RoleCA; c_issuer_key_trusted := true; c_cn := u;
+     c_denied := false; c_not_before := now; c_ip_error := false; c_ip_valid := true;
+     c_automation := true; c_revoked := false |}.
+
 Definition request_of (cr : cred) (now : Z) : Auth.request :=
   match cr with
   | NoCred => {| r_get := true; r_origin := NoOrigin; r_tls := None; Auth.r_cred := Auth.NoCred |}
   | Session u l => {| r_get := true; r_origin := NoOrigin; r_tls := None;
                       Auth.r_cred := Cookie (good_token u l now) |}
   | KMCert u => {| r_get := true; r_origin := NoOrigin; r_tls := Some (good_chain u now);
+                   Auth.r_cred := Auth.NoCred |}
+  | IPCert u => {| r_get := true; r_origin := NoOrigin; r_tls := Some (role_chain u now);
                    Auth.r_cred := Auth.NoCred |}
   end.
 
@@ -363,7 +370,7 @@ Lemma authenticate_is_check_auth required cr now :
   | None => exists code, check_auth now true required (request_of cr now) = Refuse code
   end.
 Proof.
-  intros Hip. destruct cr as [|u l|u]; simpl.
+  intros Hip. destruct cr as [|u l|u|u]; simpl.
   - eexists; reflexivity.
   - unfold check_auth. simpl. unfold token_ok. simpl.
     rewrite Z.leb_refl, Z.ltb_irrefl. simpl.
@@ -381,4 +388,6 @@ Proof.
         apply negb_false_iff in Hip. apply N.eqb_eq in Hip.
         rewrite N.land_lor_distr_r, Ek, Hip. reflexivity. }
       rewrite Hor. eexists; reflexivity.
+  - unfold check_auth. cbn [request_of r_get r_origin r_tls Auth.r_cred authenticate].
+    rewrite Hip. destruct (hasb required (N.lor bIPCert bKMX509)); eexists; reflexivity.
 Qed.
